@@ -439,9 +439,25 @@ bool varintBitmapContains(const varintBitmap *vb, uint16_t value) {
     return false;
 }
 
+/* Add a value known to be absent from 'result' while building a set-algebra
+ * result.  A false return can therefore only mean the allocation needed to
+ * grow or convert the container failed: release the partial result so the
+ * caller reports the failure (NULL) instead of returning an incomplete set. */
+static bool addNewOrDiscard_(varintBitmap **result, uint16_t value) {
+    if (varintBitmapAdd(*result, value)) {
+        return true;
+    }
+    varintBitmapFree(*result);
+    *result = NULL;
+    return false;
+}
+
 varintBitmap *varintBitmapAnd(const varintBitmap *vb1,
                               const varintBitmap *vb2) {
     varintBitmap *result = varintBitmapCreate();
+    if (!result) {
+        return NULL; /* Out of memory */
+    }
 
     /* Optimize: AND with array containers */
     if (vb1->type == VARINT_BITMAP_ARRAY && vb2->type == VARINT_BITMAP_ARRAY) {
@@ -452,7 +468,9 @@ varintBitmap *varintBitmapAnd(const varintBitmap *vb1,
             uint16_t v2 = vb2->container.array.values[j];
 
             if (v1 == v2) {
-                varintBitmapAdd(result, v1);
+                if (!addNewOrDiscard_(&result, v1)) {
+                    return NULL; /* Out of memory */
+                }
                 i++;
                 j++;
             } else if (v1 < v2) {
@@ -472,7 +490,9 @@ varintBitmap *varintBitmapAnd(const varintBitmap *vb1,
     varintBitmapIterator it = varintBitmapCreateIterator(smaller);
     while (varintBitmapIteratorNext(&it)) {
         if (varintBitmapContains(other, it.currentValue)) {
-            varintBitmapAdd(result, it.currentValue);
+            if (!addNewOrDiscard_(&result, it.currentValue)) {
+                return NULL; /* Out of memory */
+            }
         }
     }
 
@@ -481,10 +501,16 @@ varintBitmap *varintBitmapAnd(const varintBitmap *vb1,
 
 varintBitmap *varintBitmapOr(const varintBitmap *vb1, const varintBitmap *vb2) {
     varintBitmap *result = varintBitmapClone(vb1);
+    if (!result) {
+        return NULL; /* Out of memory */
+    }
 
     varintBitmapIterator it = varintBitmapCreateIterator(vb2);
     while (varintBitmapIteratorNext(&it)) {
-        varintBitmapAdd(result, it.currentValue);
+        if (!varintBitmapContains(result, it.currentValue) &&
+            !addNewOrDiscard_(&result, it.currentValue)) {
+            return NULL; /* Out of memory */
+        }
     }
 
     return result;
@@ -493,12 +519,17 @@ varintBitmap *varintBitmapOr(const varintBitmap *vb1, const varintBitmap *vb2) {
 varintBitmap *varintBitmapXor(const varintBitmap *vb1,
                               const varintBitmap *vb2) {
     varintBitmap *result = varintBitmapCreate();
+    if (!result) {
+        return NULL; /* Out of memory */
+    }
 
     /* Add elements from vb1 that are not in vb2 */
     varintBitmapIterator it1 = varintBitmapCreateIterator(vb1);
     while (varintBitmapIteratorNext(&it1)) {
         if (!varintBitmapContains(vb2, it1.currentValue)) {
-            varintBitmapAdd(result, it1.currentValue);
+            if (!addNewOrDiscard_(&result, it1.currentValue)) {
+                return NULL; /* Out of memory */
+            }
         }
     }
 
@@ -506,7 +537,9 @@ varintBitmap *varintBitmapXor(const varintBitmap *vb1,
     varintBitmapIterator it2 = varintBitmapCreateIterator(vb2);
     while (varintBitmapIteratorNext(&it2)) {
         if (!varintBitmapContains(vb1, it2.currentValue)) {
-            varintBitmapAdd(result, it2.currentValue);
+            if (!addNewOrDiscard_(&result, it2.currentValue)) {
+                return NULL; /* Out of memory */
+            }
         }
     }
 
@@ -516,11 +549,16 @@ varintBitmap *varintBitmapXor(const varintBitmap *vb1,
 varintBitmap *varintBitmapAndNot(const varintBitmap *vb1,
                                  const varintBitmap *vb2) {
     varintBitmap *result = varintBitmapCreate();
+    if (!result) {
+        return NULL; /* Out of memory */
+    }
 
     varintBitmapIterator it = varintBitmapCreateIterator(vb1);
     while (varintBitmapIteratorNext(&it)) {
         if (!varintBitmapContains(vb2, it.currentValue)) {
-            varintBitmapAdd(result, it.currentValue);
+            if (!addNewOrDiscard_(&result, it.currentValue)) {
+                return NULL; /* Out of memory */
+            }
         }
     }
 
